@@ -391,8 +391,10 @@ Definition run_pipe_spec_wire (x : xval) : xval :=
 
 (** The same over TLS + HTTP/2 ([pathsanpipe.h2]): the client (h2 crate) can only send a [:path] that
     [http::uri::PathAndQuery] accepts; the harness sends origin-form targets (and what the server's
-    h2 layer refuses is 96 on both sides: the same [pq_parse]) *)
-Definition h2_ok (m t : bytes) : bool := wire_ok m && wire_ok t && starts_with [c_slash] t.
+    h2 layer refuses is 96 on both sides: the same [pq_parse]); a CONNECT request carries no [:path] in HTTP/2
+    and is not sent *)
+Definition h2_ok (m t : bytes) : bool :=
+  wire_ok m && wire_ok t && starts_with [c_slash] t && negb (beq m (B "CONNECT")).
 Definition step_op_h2 (c : pcfg) (st : pstate) (o : op) : xval * pstate :=
   match o with
   | OReq m t k =>
